@@ -95,4 +95,14 @@ def run(rep, tier, root=None):
         raise AnalysisError("CovarianceMatrix.make_covariance_matrix not found")
     rep.functions_analysed.add(top.fq)
     no_carried_state(rep, ix, top, "S3.sensor-equivalence")
-    rep.floor("C02 obligations", len(rep.obligations), 5)
+    # ... and only if the builder places the four slope-kind blocks of every sensor pair at the offsets of *that* pair
+    # (x slopes then y slopes of each sensor): the partition C[:2n, 2n:] / C[2n:, 2n:] of the wrapper relies on it
+    from .c01 import tile_only
+    wc = ix.func(MOD, "wfs_covariance")
+    for mname in ("_make_covariance_matrix", "_make_covariance_matrix_mp"):
+        bm = cls.find_method(mname)
+        if bm is None:
+            raise AnalysisError("CovarianceMatrix.%s not found" % mname)
+        rep.functions_analysed.add(bm.fq)
+        tile_only(rep, ix, cls, bm, wc, "S3.block-layout")
+    rep.floor("C02 obligations", len(rep.obligations), 7)
